@@ -20,6 +20,7 @@ Oracle clauses (evaluated on the implementation's observations, no model involve
                   its own copy of it, in the same state)
   space-class     all cells of a grid have one dynamically created class, the grid's own (a copy: a new one; S21: one per cell);
                   network cells have the plain class
+  space-collection the space's cached cell collection (`all_cells`, the source of `space.agents`) lists exactly the agents the cells list
   space-detached  an operation addressed to another family (a space and what was created in it / one copy), or a rejected
                   operation, never changes what a space shows
 """
@@ -268,7 +269,8 @@ class OccImpl:
             empt = [self.cname(c) for c in cells if bool(data[c.coordinate])]
         else:
             empt = [self.cname(c) for c in cells if c.is_empty]
-        return "ok " + " ".join(parts) + " | " + " ".join(ags) + " | " + " ".join(empt)
+        through = [self.cname(a) for a in space.all_cells.agents]   # the cached collection {cell: cell._agents}
+        return "ok " + " ".join(parts) + " | " + " ".join(ags) + " | " + " ".join(empt) + " | " + " ".join(through)
 
 
 def run_impl(sc):
@@ -333,6 +335,9 @@ def look_problems(o, space=None, grid=True):
             bad.append(("space-closure", f"agent {a} points to {c}, which is not a cell of this space"))
         elif at[a] != want:
             bad.append(("space-closure", f"agent {a} points to {c} and is listed by {at[a]}"))
+    through = (o[3:].split(" | ") + [""] * 4)[3].split() if o.startswith("ok ") else []
+    if through != [a for c in cells for a in c[3]]:
+        bad.append(("space-collection", f"space.all_cells.agents lists {through}, the cells list {[a for c in cells for a in c[3]]}"))
     if sorted(empt) != sorted(c[0] for c in cells if not c[3]):
         bad.append(("space-empty", f"the empty layer shows {empt}, the cells without agents are {[c[0] for c in cells if not c[3]]}"))
     return bad
